@@ -54,6 +54,10 @@ func runC18(p *core.Prog, r *core.Report) {
 		r.Fail("C18-R1", "anchors CopyFile/MoveFile", "-", "exported functions not found")
 		return
 	}
+	// inlined views: private helpers (an alias guard, an open helper) are seen in place; MoveFile keeps its call of CopyFile
+	cpSrc := cp
+	cp = p.Inl(cpSrc)
+	mv = p.Inl(mv, cpSrc)
 
 	// ---- R1
 	var copies, removes []*ssa.Call
@@ -64,7 +68,7 @@ func runC18(p *core.Prog, r *core.Report) {
 			return
 		}
 		switch {
-		case sx.StaticCallee(c) == cp:
+		case sameFn(sx.StaticCallee(c), cp):
 			copies = append(copies, c)
 		case sx.CalleeName(c) == "os.Remove" || sx.CalleeName(c) == "os.RemoveAll":
 			if fromParam(c.Call.Args[0], mv, 0) {
@@ -104,7 +108,7 @@ func runC18(p *core.Prog, r *core.Report) {
 		sx.WalkFrom(mv, rm, sx.Cut{}, func(in ssa.Instruction) bool {
 			if cc, ok := in.(ssa.CallInstruction); ok {
 				n := sx.CalleeName(cc)
-				if strings.HasPrefix(n, "os.") || sx.StaticCallee(cc) == cp || strings.HasPrefix(n, "io.") {
+				if strings.HasPrefix(n, "os.") || sameFn(sx.StaticCallee(cc), cp) || strings.HasPrefix(n, "io.") {
 					after = append(after, n+" at "+p.Pos(in.Pos()))
 				}
 			}
@@ -172,8 +176,15 @@ func runC18(p *core.Prog, r *core.Report) {
 					}
 					switch sx.CalleeName(st) {
 					case "(*os.File).Stat":
-						if sx.Origins(st.Call.Args[0])["call:os.Open"] {
-							haveSrc = true
+						if org := sx.Origins(st.Call.Args[0]); org["call:os.Open"] || org["call:os.OpenFile"] {
+							// the handle the source is read through
+							for _, lf2 := range leaves(st.Call.Args[0]) {
+								if e2, ok := lf2.(*ssa.Extract); ok {
+									if oc, ok := e2.Tuple.(*ssa.Call); ok && fromParam(oc.Call.Args[0], cp, 0) {
+										haveSrc = true
+									}
+								}
+							}
 						}
 					case "os.Stat":
 						if fromParam(st.Call.Args[0], cp, 0) {
@@ -197,12 +208,13 @@ func runC18(p *core.Prog, r *core.Report) {
 				return
 			}
 			guardFound = true
-			// false edge of the SameFile test
-			for _, u := range *sf.Referrers() {
-				if iff, ok := u.(*ssa.If); ok {
-					cut.Edges[sx.Edge{From: iff.Block(), Idx: 1}] = true
+			// false edge of the SameFile test (written as `if SameFile` or `if !SameFile`)
+			for e := range boolEdges(sf, false) {
+				{
+					iff := e.From.Instrs[len(e.From.Instrs)-1].(*ssa.If)
+					cut.Edges[e] = true
 					// the open must not be reachable from the true edge
-					tb := iff.Block().Succs[0]
+					tb := iff.Block().Succs[1-e.Idx]
 					if len(tb.Instrs) > 0 && (tb.Instrs[0] == op.(ssa.Instruction) || sx.ReachInstr(cp, nil, op.(ssa.Instruction), sx.Cut{}) && reachFromBlock(cp, tb, op.(ssa.Instruction))) {
 						why = append(why, "the truncating open is reachable from the edge where os.SameFile returned true")
 					}
